@@ -282,6 +282,15 @@ def run_multitask(cell, g, fails, feats):
             rd = Db.diagonal(dim1=-1, dim2=-2).unsqueeze(-2)
             want = (-0.5 * ((y - mb) ** 2 / (var + rd) + (var + rd).log() + math.log(2 * math.pi))).sum(-1)
             fails.check_close("log_marginal", lik.log_marginal(y, d), want, 1e-9, 1e-9)
+        with fails.guard("positional-inputs"):
+            # the training inputs passed positionally after the distribution (as the objectives and ExactGP do for every likelihood) are not
+            # part of this likelihood's noise model: every entry point gives the same result with and without them (also for x == 0)
+            if not pd:
+                raise util.Skip()
+            for x in (util.rand(g, n, 1), torch.zeros(n, 1, dtype=F64)):
+                fails.check_close("positional-inputs", lik(d, x).covariance_matrix, lik(d).covariance_matrix, 0, 0, "lik(dist, x)")
+                fails.check_close("positional-inputs", lik.expected_log_prob(y, d, x), lik.expected_log_prob(y, d), 0, 0, "expected_log_prob(y, dist, x)")
+                fails.check_close("positional-inputs", lik.log_marginal(y, d, x), lik.log_marginal(y, d), 0, 0, "log_marginal(y, dist, x)")
     return "multitask"
 
 
